@@ -48,11 +48,16 @@ const (
 	vfbRefused         // connections are refused during this poll (network failure)
 	vfbTimeout         // this poll runs into its deadline
 	vfbFail            // next processor call fails (no poll)
+	vfbFail2           // the second processor call of one poll fails, the first one is applied (no poll)
+	vfbNewXNewY        // put x and y with new valid content, then ONE poll (two pending changes)
+	vfbDelXNewY        // delete x and put y with new valid content, then one poll
+	vfbNewXDelY        // put x with new valid content and delete y, then one poll
 	vfbN
 )
 
 var vfbNames = [vfbN]string{"put-new(x)", "put-same(x)", "put-empty(x)", "put-invalid(x)", "put-unsupported-type(x)", "delete(x)", "put-new(y)", "delete(y)",
-	"poll-while-connections-dropped", "poll-while-connections-refused", "poll-times-out", "processor-fails-next"}
+	"poll-while-connections-dropped", "poll-while-connections-refused", "poll-times-out", "processor-fails-next",
+	"second-processor-call-of-a-poll-fails", "put-new(x)+put-new(y)", "delete(x)+put-new(y)", "put-new(x)+delete(y)"}
 
 // vfbGate sits in front of gofakes3: it can drop connections (network failure) and, in loop mode,
 // hold the first request of a poll (the bucket listing / the HEAD of the single blob) until permitted.
@@ -192,6 +197,18 @@ func (w *vfbWorld) apply(sym int) error {
 		return w.del("x")
 	case vfbDelY:
 		return w.del("y")
+	case vfbNewXNewY, vfbDelXNewY, vfbNewXDelY:
+		// two blobs change before the bucket is polled once
+		first, second := vfbNewX, vfbNewY
+		if sym == vfbDelXNewY {
+			first = vfbDelX
+		} else if sym == vfbNewXDelY {
+			second = vfbDelY
+		}
+		if err := w.apply(first); err != nil {
+			return err
+		}
+		return w.apply(second)
 	case vfbDown:
 		w.poll = "down"
 	case vfbRefused:
@@ -339,8 +356,9 @@ func vfbEndpoint(srvURL, bucket, blobKey string) (*ruleSetEndpoint, error) {
 
 func TestC18(t *testing.T) {
 	r := core.Begin("C18", "fault_enumeration")
-	r.Rule("cloud_blob: exhaustive sequences (length <=3 quick / <=4 thorough, plus a seeded sample of longer ones) over 12 symbols (blob x: put new/same/empty/invalid/unsupported type, delete; " +
-		"blob y: put new, delete; poll while connections are dropped / refused; poll running into its deadline; processor failure); each symbol mutates the gofakes3 bucket and runs " +
+	r.Rule("cloud_blob: exhaustive sequences (length <=3 quick / <=4 thorough, plus a seeded sample of longer ones) over 16 symbols (blob x: put new/same/empty/invalid/unsupported type, delete; " +
+		"blob y: put new, delete; two blobs changed before one poll: new+new, delete+new, new+delete; poll while connections are dropped / refused; poll running into its deadline; " +
+		"failure of the next processor call / of the second processor call of a poll); each symbol mutates the gofakes3 bucket and runs " +
 		"provider.watchChanges for the bucket endpoint; the same with an endpoint naming a single blob; plus sequences against the real scheduler loop. Oracle: vfDecide per blob and poll, " +
 		"active rule sets = latest valid content of existing blobs at the end. Non-trivial: >=2 successful processor calls.")
 	r.Assume("S3 is gofakes3 on loopback (the in-module fake the repository's tests use); network failure = the fake drops the connection / the poll's context deadline has elapsed",
@@ -656,6 +674,10 @@ func vfbRunDirect(r *core.Run, w *vfbWorld, ep *ruleSetEndpoint, fails *vfbFailu
 			rec.armFailure()
 			continue
 		}
+		if sym == vfbFail2 {
+			rec.armFailureAt(2)
+			continue
+		}
 		if err := w.apply(sym); err != nil {
 			r.Inconclusive("blob: mutation failed: " + err.Error())
 			return 0, false
@@ -778,6 +800,10 @@ func vfbRunLoop(r *core.Run, backend *s3mem.Backend, gate *vfbGate, srvURL strin
 	for _, sym := range seq {
 		if sym == vfbFail {
 			rec.armFailure()
+			continue
+		}
+		if sym == vfbFail2 {
+			rec.armFailureAt(2)
 			continue
 		}
 		if err := w.apply(sym); err != nil {
